@@ -53,6 +53,8 @@ def _my_odeint_(dfunc, V0, times, args=()):
     return V
 
 def _initialize_node_status_(G, initial_infecteds, initial_recovereds = None):
+    if G.has_node(initial_infecteds): #a single node, not an iterable of nodes
+        initial_infecteds = [initial_infecteds]
     if initial_recovereds is None:
         initial_recovereds = []
     intersection = set(initial_infecteds).intersection(set(initial_recovereds))
